@@ -112,6 +112,28 @@ const NAMES: [&str; 12] = ["a", "b", "x", "main", "check", "t1", "Z", "_u", "ab"
 /// `pkg/` with a `mod.roto`), and its items then have keys `pkg.pkg.…`, names `pkg.…`
 const MODS: [&str; 8] = ["m", "util", "sub", "zz", "t_", "tests", "xpkg", "pkg"];
 
+/// forms `>= GLUE_FORM` of a test body use the record `Gl_` declared by `GLUE_DECLS` in the same module
+const GLUE_FORM: u64 = 100;
+/// a record with a string field, and functions that copy and compare it: the function table of
+/// the compiled package then also holds compiler-generated functions (`eq`, `clone`, `drop` glue)
+const GLUE_DECLS: &str = "record Gl_ { n: u32, s: String }\n\nfn gl_mk(n: u32) -> Gl_ {\n    Gl_ { n: n, s: \"g\" }\n}\n\nfn gl_same(a: Gl_, b: Gl_) -> bool {\n    let c = a;\n    c == b\n}\n";
+
+/// give every test block of the modules selected by `pick` a body that needs glue
+fn with_glue(mut case: Case, pick: impl Fn(usize) -> bool) -> Case {
+    for (i, m) in case.mods.iter_mut().enumerate() {
+        if !pick(i) {
+            continue;
+        }
+        for it in m.items.iter_mut() {
+            if let Item::Test(t) = it {
+                t.form = GLUE_FORM + t.form % 3;
+            }
+        }
+        m.items.insert(0, Item::Raw(GLUE_DECLS.to_string()));
+    }
+    case
+}
+
 fn effect(cli: bool, id: u32) -> String {
     if cli { format!("print(\"<<T{id}>>\");") } else { format!("emit({id});") }
 }
@@ -119,6 +141,18 @@ fn effect(cli: bool, id: u32) -> String {
 impl TestDecl {
     fn src(&self, cli: bool) -> String {
         let e = effect(cli, self.id);
+        if self.form >= GLUE_FORM {
+            // the body compares / copies / drops values of the module's record `Gl_` (a number and
+            // a string): the compiler generates `eq`, `clone` and `drop` glue for the type, which
+            // lives in the same function table as the test blocks
+            let (n, cmp) = (self.id % 1000, if self.accept { "==" } else { "!=" });
+            let body = match self.form % 3 {
+                0 => format!("let x = Gl_ {{ n: {n}, s: \"k\" }};\n    let y = x;\n    if x {cmp} y {{ accept }} else {{ reject }}"),
+                1 => format!("let x = gl_mk({n});\n    if gl_same(x, x) {cmp} true {{ accept }} else {{ reject }}"),
+                _ => format!("let x = Some(Gl_ {{ n: {n}, s: \"q\" }});\n    if x {cmp} x {{ accept }} else {{ reject }}"),
+            };
+            return format!("test {} {{\n    {e}\n    {body}\n}}\n", self.name);
+        }
         let body = match (self.form % 3, self.accept) {
             (0, true) => "accept".to_string(),
             (0, false) => "reject".to_string(),
@@ -272,7 +306,13 @@ fn gen_case(p: &mut Prng, allow_invalid: bool) -> Case {
         }
         mods.push(ModGen { path, items });
     }
-    Case { mods, must_fail }
+    let case = Case { mods, must_fail };
+    // (drawn last, so that the rest of the case is the same as without this class)
+    if p.chance(1, 3) {
+        let mask = p.below(16) | 1 << p.below(4);
+        return with_glue(case, |i| mask >> (i % 4) & 1 == 1);
+    }
+    case
 }
 
 
@@ -388,11 +428,33 @@ fn boundary_api(k: u64) -> Option<Case> {
             bm(&["pkg"], vec![bf("a", 4), bt("b", 5, true)]),
             bm(&["pkg", "m"], vec![bt("a", 6, true), bf("go", 7)]),
         ]),
+        // names that differ only in the case of their letters, or in the leading zeros of a
+        // number: equal under a case-folding / "natural" sort key, so only the full key orders
+        // them (and a map keyed by such a key would hold one of them only)
+        21 => c(case_only_names()),
+        // compiler-generated functions in the table: every block's body needs `eq`/`clone`/`drop`
+        // glue of a record with a string (root only; every module of a deep package; only the
+        // submodules, with a function named like a block)
+        22 => Some(with_glue(Case { mods: vec![bm(&[], vec![bt("a", 100, true), bt("b", 101, false), bt("c", 102, true), bf("a", 4)])], must_fail: None }, |_| true)),
+        23 => Some(with_glue(boundary_api(2).unwrap(), |_| true)),
+        24 => Some(with_glue(boundary_api(0).unwrap(), |i| i > 0)),
+        25 => Some(with_glue(counted(&DEEP, 3, 9), |i| i % 2 == 1)),
         _ => None,
     }
 }
 
-const N_API_BOUNDARY: u64 = 21;
+fn case_only_names() -> Vec<ModGen> {
+    vec![
+        bm(&[], vec![bt("roundtrip", 1, true), bt("RoundTrip", 2, true), bt("ROUNDTRIP", 3, true), bt("Roundtrip", 4, true), bt("roundTrip", 5, true), bt("other", 6, true), bf("Other", 11)]),
+        bm(&["m"], vec![bt("ab", 7, true), bt("aB", 8, true), bt("Ab", 9, false), bt("AB", 10, true)]),
+        // … and names that differ only in how a number is written (equal under a "natural" key)
+        // … non-ASCII names (the order is that of the UTF-8 bytes; case pairs outside ASCII)
+        bm(&["util"], vec![bt("é", 19, true), bt("É", 20, true), bt("e", 21, true), bt("ǆx", 22, true), bt("ǅx", 23, true), bt("Ǆx", 24, true), bt("z", 25, true)]),
+        bm(&["zz"], vec![bt("t_1", 12, true), bt("t_01", 13, false), bt("t_001", 14, true), bt("case7", 15, true), bt("case07", 16, true), bt("t_10", 17, true), bt("t_2", 18, true)]),
+    ]
+}
+
+const N_API_BOUNDARY: u64 = 26;
 
 fn api_case_for(seed: u64, idx: u64) -> Case {
     match boundary_api(idx) {
@@ -584,6 +646,24 @@ fn api_case(rep: &mut Report, drv: &mut Model, seed: u64, idx: u64) {
     };
     // ---- the real function table, the model's prediction on it
     let keys = existing_keys(&mut pkg);
+    // entries that are neither a block nor a script function: compiler-generated glue.  The
+    // theorems (`discovery_exact`, `run_package_truthful`) allow any such entries whose keys hold
+    // no `#`; that assumption is checked on every real table.
+    let declared: Vec<String> = case.mods.iter().flat_map(|m| m.fns().into_iter().map(move |f| m.key(&f.name))).collect();
+    let glue: Vec<&String> = keys.iter().filter(|k| !k.contains("test#") && !declared.contains(k) && !k.ends_with(".gl_mk") && !k.ends_with(".gl_same") && !k.ends_with(".caller_")).collect();
+    rep.hist("glue entries in the function table", match glue.len() { 0 => "0", 1..=3 => "1-3", 4..=9 => "4-9", _ => "10+" });
+    if let Some(g) = glue.iter().find(|k| k.contains('#')) {
+        rep.mismatch(
+            "a compiler-generated entry of the function table has a `#` in its key (assumption of discovery_exact)",
+            json!({"case": cj, "key": g}),
+        );
+    }
+    if !glue.is_empty() {
+        rep.class(format!("glue|{}|{}", nmods, glue.len().min(12)));
+        if !rep.notes.iter().any(|n| n.starts_with("glue keys")) {
+            rep.notes.push(format!("glue keys, e.g. (api case {idx}): {}", glue.iter().take(6).map(|s| s.as_str()).collect::<Vec<_>>().join(" ")));
+        }
+    }
     let testlike: Vec<&String> = keys.iter().filter(|k| k.contains("test#")).collect();
     let mut want: Vec<String> = all_tests.iter().map(|(k, _)| k.clone()).collect();
     want.sort();
@@ -697,6 +777,33 @@ fn api_case(rep: &mut Report, drv: &mut Model, seed: u64, idx: u64) {
     }
     if l1.iter().any(|id| !all_tests.iter().any(|(_, t)| t.id == *id)) {
         rep.violation("a non-test function body ran during run_tests", "function ran as test", witness.clone());
+    }
+    // ---- the host's own runner: `Package::get_tests()` + `TestCase::run` (public API; the
+    // cases one by one).  The i-th handle must carry the name of the i-th block in sorted key
+    // order, run exactly that block's body, and report exactly that block's verdict.
+    if all_tests.len() <= 64 {
+        let mut sorted: Vec<&(String, &TestDecl)> = all_tests.iter().collect();
+        sorted.sort_by(|a, b| a.0.cmp(&b.0));
+        take_log();
+        let cases: Vec<_> = pkg.get_tests().collect();
+        let mut per_case = vec![];
+        for tc in &cases {
+            let r = quiet(|| tc.run(&mut NoCtx));
+            per_case.push((tc.name().to_string(), r.is_ok(), take_log()));
+        }
+        rep.hist("entry points (host runner: get_tests + TestCase::run)", cases.len().min(12).to_string());
+        for (i, (name, ok, log)) in per_case.iter().enumerate() {
+            let Some((key, decl)) = sorted.get(i) else { break };
+            let want_name = key.replace("test#", "");
+            if *name != want_name || *ok != decl.accept || *log != vec![decl.id] {
+                rep.violation(
+                    &format!("the {i}-th test case of get_tests() (name `{name}`) is not the block {key}: it must be called `{want_name}`, run the body {} once and return {}; it ran {log:?} and returned {}", decl.id, if decl.accept { "Ok" } else { "Err" }, if *ok { "Ok" } else { "Err" }),
+                    "test case handle is not its block",
+                    json!({"case": cj, "index": i, "key": key, "handle": [name, ok, log]}),
+                );
+                break;
+            }
+        }
     }
     if l1 != l2 || r1 != r2 {
         rep.violation(
@@ -1033,11 +1140,15 @@ fn boundary_cli(k: u64) -> Option<CliCase> {
         17 => mkf("entry m.main: no such module".into(), "run", boundary_api(17).unwrap(), true, Some("m.main")),
         18 => mkf("entry pkg.m.go in a module below pkg".into(), "run", boundary_api(20).unwrap(), true, Some("pkg.m.go")),
         19 => mk("pkg below m, m below pkg".into(), "test", boundary_api(20).unwrap(), true),
+        20 => mk("names that differ only in letter case".into(), "test", boundary_api(21).unwrap(), true),
+        21 => mk("glue functions in the table, root only".into(), "test", boundary_api(22).unwrap(), false),
+        22 => mk("glue functions in the table, every depth".into(), "test", boundary_api(23).unwrap(), true),
+        23 => mk("glue functions in the table".into(), "run", boundary_api(24).unwrap(), true),
         _ => None,
     }
 }
 
-const N_CLI_BOUNDARY: u64 = 27;
+const N_CLI_BOUNDARY: u64 = 31;
 /// the 65536-block case: skipped by the quick tier (it is index 17 in every tier)
 const GIANT_IDX: u64 = 17;
 
@@ -1125,7 +1236,31 @@ fn cli_case(rep: &mut Report, drv: &mut Model, bin: &str, scratch: &std::path::P
         "files": if c.read_ok { json!(files.iter().map(|(k, v)| (k.clone(), abbreviate(v))).collect::<BTreeMap<_, _>>()) } else { json!({}) }});
     let nblocks: usize = c.case.mods.iter().map(|m| m.tests().len()).sum();
     let ran = run_bin(bin, &args, &dir, Duration::from_secs(if nblocks > 4096 { 1500 } else { 120 }));
+    // the same invocation once more, in another process (another hash seed): which blocks run, in
+    // which order, and the exit status may depend on the script only
+    let again = if c.cmd == "test" && (2..=600).contains(&nblocks) && c.read_ok && c.parse_ok && c.type_ok {
+        run_bin(bin, &args, &dir, Duration::from_secs(120)).ok()
+    } else {
+        None
+    };
     let _ = std::fs::remove_dir_all(&dir);
+    fn mark_seq(stdout: &str) -> Vec<u32> {
+        stdout
+            .split("<<T")
+            .skip(1)
+            .filter_map(|rest| rest.split_once(">>").and_then(|(d, _)| d.parse::<u32>().ok()))
+            .collect()
+    }
+    if let (Ok((code1, out1)), Some((code2, out2))) = (&ran, &again) {
+        rep.hist("cli test: invoked twice", "yes");
+        if mark_seq(out1) != mark_seq(out2) || (*code1 == Some(0)) != (*code2 == Some(0)) {
+            rep.violation(
+                "two `roto test` invocations on the same script ran the blocks in different orders (or ended differently)",
+                "cli test: two invocations differ",
+                json!({"case": cj, "first": [format!("{code1:?}"), mark_seq(out1)], "second": [format!("{code2:?}"), mark_seq(out2)]}),
+            );
+        }
+    }
     let (code, stdout) = match ran {
         Ok(x) => x,
         Err(e) => {
@@ -1321,6 +1456,9 @@ fn history_case_for(seed: u64, idx: u64) -> Case {
         1 => counted(&DEEP, 3, 37),
         2 => boundary_api(2).unwrap(),
         3 => boundary_api(4).unwrap(),
+        // names equal up to letter case; a table with compiler-generated functions between the blocks
+        4 => boundary_api(21).unwrap(),
+        5 => boundary_api(25).unwrap(),
         _ => gen_case(&mut Prng::for_case(seed ^ 0x4157, idx), false),
     }
 }
